@@ -20,6 +20,7 @@ import (
 	"net/http"
 	"net/url"
 	"strings"
+	"unicode/utf8"
 
 	"k8s.io/klog"
 
@@ -240,6 +241,14 @@ func buildImpersonationRequests(headers http.Header) ([]v1.ObjectReference, erro
 
 	if (hasGroups || hasUserExtra) && !hasUser {
 		return nil, fmt.Errorf("requested %v without impersonating a user", impersonationRequests)
+	}
+
+	// the authorizer asks the target cluster with a SubjectAccessReview, i.e. JSON, which cannot carry bytes that
+	// are not valid UTF-8 (they become U+FFFD): the cluster would be asked about another name than the one forwarded
+	for _, ref := range impersonationRequests {
+		if !utf8.ValidString(ref.Namespace) || !utf8.ValidString(ref.Name) || !utf8.ValidString(ref.FieldPath) {
+			return nil, fmt.Errorf("requested impersonation %q is not valid UTF-8", ref.Name)
+		}
 	}
 
 	return impersonationRequests, nil
